@@ -262,14 +262,6 @@ Proof.
   unfold mset_eqb. rewrite Nat.eqb_refl. apply forallb_forall. intros x _. apply Nat.eqb_refl.
 Qed.
 
-(* THE THEOREM: for every history of TCP-relay events the isolation predicate holds on the model's trace,
-   and the runner accepts that trace *)
-Theorem tcp_isolation_on_model h : C04TcpCheck.run (tmodel_case h) = (true, true).
-Proof.
-  unfold C04TcpCheck.run, tmodel_case, iso_holds. cbn [tc_steps].
-  destruct (iso_dup_model h tinit [] [] tinit_inv2) as [H1 H2]. rewrite tagree_model, H1, H2. reflexivity.
-Qed.
-
 (* non-vacuity: two allocations connect to the same peer; the second gets its own connection, a repeated Connect
    by the first gets 446, and an inbound connection is announced to the owner of that relayed address *)
 Example tcp_iso_example :
